@@ -380,6 +380,37 @@ def run_c16(facts, rep):
             rep.violation(R + "(seedrt)", "expander", "expand_seed does not regenerate c1 from the stored seed", facts.loc(rd))
 
 
+def run_noise(facts, rep):
+    """(noise) in the RLWE encryption workers the error polynomial is drawn from an entropy generator created inside the
+    call — never from a generator handed in by the caller (whose state the caller, or every party of a protocol, knows and
+    may hand in again) nor from one expanded from the public seed."""
+    R = "R-RNGPROV(noise)"
+    rep.rule(R, "every centered_binomial draw of util::rlwe::encrypt_zero is fed by a generator created from the context's "
+             "entropy factory inside the same function")
+    n = 0
+    for p in sorted(facts.hir):
+        if not p.startswith("util::rlwe::encrypt_zero::"):
+            continue
+        k = kinds(facts, p)
+        calls = [x for x in walk(facts.hir[p]) if x.get("k") in ("Call", "MCall") and (callee(x) or {}).get("name") == "centered_binomial"]
+        for j, c in enumerate(calls):
+            n += 1
+            rep.fn(p)
+            kind = rng_arg_kind(facts, c, k)
+            key = "%s/noise#%d" % (p, j)
+            if kind and kind[0] == "entropy":
+                rep.ok(R, key, "the error polynomial is drawn from a generator created from entropy in this call", facts.loc(p, c))
+            elif kind and kind[0] in ("param", "seeded", "tape"):
+                rep.violation(R, key, "the error polynomial is drawn from a %s generator (%s): two operations handed the same "
+                              "generator state — or anyone who knows that state — share the error as well as the mask, so the "
+                              "encryptions are not fresh (b1 - b2 + a(s1 - s2) = 0 reveals key differences)" %
+                              (kind[0], kind[1] if isinstance(kind[1], str) else "expanded from the public seed"), facts.loc(p, c))
+            else:
+                rep.unresolved(R, key, "generator of the error draw not classified", facts.loc(p, c))
+    rep.floor(R, "error draws in the encryption workers", n, 2)
+    return n
+
+
 def run_tape(facts, rep):
     R = "R-RNGPROV(tape)"
     rep.rule(R, "in the multiparty layer every public polynomial (sample::uniform, the u of the collective public key) is "
